@@ -298,6 +298,31 @@ func genScan(t *Tracer, m *Meta, tier string, seed int64) {
 		runScanCase(t, m, r, c, starts, len(keys) <= 60, i%2 == 0, 30)
 		m.class("family:" + fam)
 	}
+	// (2b) boundary-seeking shapes
+	nB := 39
+	if !quick {
+		nB = 200
+	}
+	for i := 0; i < nB; i++ {
+		ci := (i + int(seed)) % len(boundaryConds)
+		fam := boundaryFamilies[r.Intn(len(boundaryFamilies))]
+		o4 := complete[r.Intn(len(complete))]
+		keys := seekBoundary(r, fam, ci, o4)
+		if keys == nil {
+			continue
+		}
+		enc := encs[r.Intn(len(encs))]
+		var vals [][]byte
+		if enc != "none" {
+			vals = valsFromPattern(enc, len(keys), 0, int64(r.Intn(100)))
+		}
+		c := &TrieCase{Keys: keys, Enc: enc, Vals: vals, Opt4: o4}
+		starts := querySet(r, keys, 16)
+		// the last keys are served by the last inner nodes and the last words
+		starts = append(starts, keys[len(keys)-1], keys[len(keys)-2], keys[len(keys)-1]+"\x00", keys[len(keys)-1][:len(keys[len(keys)-1])/2])
+		runScanCase(t, m, r, c, starts, false, i%2 == 0, 12)
+		m.class("boundary:" + boundaryConds[ci].Name)
+	}
 	// (3) degenerate complete tries
 	for _, keys := range [][]string{{}, {""}, {"a"}, {"\x00\xff\x80"}, {"", "\x00"}} {
 		for _, enc := range []string{"i32", "s16", "none"} {
